@@ -160,11 +160,28 @@ def bypass_of_draw(b, blk):
                 refusing.add(i)
     cyc = RNG.cyclic_blocks(b)
     if blk in cyc:
-        scc = R5._scc_of(b, blk)
-        heads = [h for h in scc if all(b.dominates(h, x) for x in scc)]
-        if not heads:
+        # innermost natural loop containing the draw: back edges x -> h with h dominating x
+        pred = b.pred()
+        best = None
+        for x in range(len(b.blocks)):
+            for h in succ[x]:
+                if not b.dominates(h, x):
+                    continue
+                body = {h, x}
+                st = [x]
+                while st:
+                    y = st.pop()
+                    if y == h:
+                        continue
+                    for z in pred[y]:
+                        if z not in body:
+                            body.add(z)
+                            st.append(z)
+                if blk in body and (best is None or len(body) < len(best[1])):
+                    best = (h, body)
+        if best is None:
             return None
-        h = heads[0]
+        h, scc = best
         if h == blk:
             return None
         seen = set()
